@@ -120,9 +120,15 @@ def impl_instance(ref_labels, pred_labels, idx):
             r = _evaluate_instance(ref_labels, pred_labels, idx, [Metric.ASSD])
             v = float(r[Metric.ASSD])
             w = float(Metric.ASSD(ref_labels, pred_labels, idx, idx))
+            # the exported kernel called directly on label maps whose two instances carry DIFFERENT labels
+            from panoptica.metrics import _compute_instance_average_symmetric_surface_distance as kernel
+            idx2 = int(max(int(ref_labels.max()), int(pred_labels.max()))) + 3
+            pl2 = pred_labels.astype(np.int64)
+            pl2[pred_labels == idx] = idx2
+            kv = float(kernel(ref_labels.astype(np.int64), pl2, idx, idx2))
     except Exception as e:  # noqa
         return {"error": f"{type(e).__name__}: {e}"}
-    return {"cropped": v, "uncropped": w}
+    return {"cropped": v, "uncropped": w, "kernel": kv}
 
 
 # ------------------------------------------------------------------ model side
@@ -585,6 +591,9 @@ def run(ctx):
                         bad.append(f"_evaluate_instance (crop, then ASSD) = {r['cropped']!r} but the definition gives {float(e)!r}")
                     if not close(r["uncropped"], e):
                         bad.append(f"Metric.ASSD with label selection = {r['uncropped']!r} but the definition gives {float(e)!r}")
+                    if not close(r["kernel"], e):
+                        bad.append(f"the exported ASSD kernel on label maps with distinct reference / prediction labels = {r['kernel']!r} "
+                                   f"but the definition gives {float(e)!r}")
                 if bad:
                     report("; ".join(bad), {"mode": "instance", "ref": ref, "pred": pred, "idx": idx, "pads": pads,
                                             "noise": seed, "observed": r, "definition_value": float(e)})
